@@ -417,6 +417,32 @@ def serverLoop (c : Codec) (maxFrameSize : Nat) (s : Bytes) : List Decoded :=
       if _hlt : f.rest.length < s.length then d :: serverLoop c maxFrameSize f.rest else [d]
 termination_by s.length
 
+/-- `handleConn` with an echo handler (the handler returns its request): the decoded requests and
+    the bytes written to the connection — one `MarshalBinaryTo` (legacy) frame per request; a read,
+    decode or marshal failure closes the connection -/
+def serverEcho (c : Codec) (maxFrameSize : Nat) (s : Bytes) : List Decoded × Bytes :=
+  match readFrame maxFrameSize s with
+  | .error _ => ([], [])
+  | .ok f =>
+    match serverDecode c f.frame with
+    | .error _ => ([], [])
+    | .ok d =>
+      match marshal d.name d.payload with
+      | .error _ => ([d], [])
+      | .ok resp =>
+        if _hlt : f.rest.length < s.length then
+          let (ds, w) := serverEcho c maxFrameSize f.rest
+          (d :: ds, resp ++ w)
+        else ([d], resp)
+termination_by s.length
+
+/-- `Client.marshalProtoWithContext`: the metadata format is used only when the context carries a
+    non-nil `*Metadata` (`ctxMD = none`: no metadata in the context; `some none`: a nil one) -/
+def clientMarshal (ctxMD : Option (Option Bytes)) (name payload : Bytes) : R Bytes :=
+  match ctxMD with
+  | some (some mb) => marshalWithMeta name payload mb
+  | _ => marshal name payload
+
 /-- the response-reading loop of `Client.SendBatchProto`: `n` responses, stop at the first error -/
 def clientReadN (c : Codec) (maxFrameSize : Nat) : Nat → Bytes → R (List Decoded)
   | 0, _ => .ok []
